@@ -99,6 +99,8 @@ pub struct Inner {
 pub struct VerifDirectory {
     pub inner: Arc<Mutex<Inner>>,
     pub hook: Arc<Mutex<Option<Hook>>>,
+    /// held from logging an operation until its effect is applied: log order = effect order
+    pub op_lock: Arc<Mutex<()>>,
 }
 
 impl std::fmt::Debug for VerifDirectory {
@@ -119,6 +121,7 @@ impl VerifDirectory {
                 short_writes: None, record_data: true, watch: WatchCallbackList::default(),
             })),
             hook: Arc::new(Mutex::new(None)),
+            op_lock: Arc::new(Mutex::new(())),
         }
     }
 
@@ -184,12 +187,15 @@ impl VerifDirectory {
     }
 
     /// Registers the operation: runs the hook, decides fault injection, returns (seq, fail?).
-    fn begin(&self, kind: OpKind, path: &str) -> (usize, bool) {
+    fn pre(&self, kind: &OpKind, path: &str) -> std::sync::MutexGuard<'_, ()> {
         let hook = self.hook.lock().unwrap().clone();
         let seq_preview = self.inner.lock().unwrap().log.len();
         if let Some(h) = hook {
-            h(self, seq_preview, &kind, path);
+            h(self, seq_preview, kind, path);
         }
+        self.op_lock.lock().unwrap_or_else(|e| e.into_inner())
+    }
+    fn begin(&self, kind: OpKind, path: &str) -> (usize, bool) {
         let mut g = self.inner.lock().unwrap();
         let seq = g.log.len();
         let tid_key = std::thread::current().id();
@@ -217,6 +223,7 @@ struct VWriter {
 
 impl Write for VWriter {
     fn write(&mut self, buf: &[u8]) -> io::Result<usize> {
+        let _op = self.dir.pre(&OpKind::Write, &self.path);
         let (seq, fail) = self.dir.begin(OpKind::Write, &self.path);
         let mut g = self.dir.inner.lock().unwrap();
         if g.record_data { g.log[seq].data = buf.to_vec(); }
@@ -238,6 +245,7 @@ impl Write for VWriter {
         Ok(k)
     }
     fn flush(&mut self) -> io::Result<()> {
+        let _op = self.dir.pre(&OpKind::Flush, &self.path);
         let (_seq, fail) = self.dir.begin(OpKind::Flush, &self.path);
         if fail { return Err(io_injected()); }
         let mut g = self.dir.inner.lock().unwrap();
@@ -248,6 +256,7 @@ impl Write for VWriter {
 
 impl TerminatingWrite for VWriter {
     fn terminate_ref(&mut self, _: AntiCallToken) -> io::Result<()> {
+        let _op = self.dir.pre(&OpKind::Terminate, &self.path);
         let (_seq, fail) = self.dir.begin(OpKind::Terminate, &self.path);
         if fail { return Err(io_injected()); }
         let mut g = self.dir.inner.lock().unwrap();
@@ -268,6 +277,7 @@ impl Directory for VerifDirectory {
 
     fn open_read(&self, path: &Path) -> Result<FileSlice, OpenReadError> {
         let ps = p2s(path);
+        let _op = self.pre(&OpKind::OpenRead, &ps);
         let (seq, fail) = self.begin(OpKind::OpenRead, &ps);
         if fail {
             return Err(OpenReadError::IoError { io_error: Arc::new(io_injected()), filepath: path.to_path_buf() });
@@ -281,6 +291,7 @@ impl Directory for VerifDirectory {
 
     fn delete(&self, path: &Path) -> Result<(), DeleteError> {
         let ps = p2s(path);
+        let _op = self.pre(&OpKind::Delete, &ps);
         let (seq, fail) = self.begin(OpKind::Delete, &ps);
         if fail {
             return Err(DeleteError::IoError { io_error: Arc::new(io_injected()), filepath: path.to_path_buf() });
@@ -294,12 +305,14 @@ impl Directory for VerifDirectory {
 
     fn exists(&self, path: &Path) -> Result<bool, OpenReadError> {
         let ps = p2s(path);
+        let _op = self.pre(&OpKind::Exists, &ps);
         let (_seq, _fail) = self.begin(OpKind::Exists, &ps);
         Ok(self.inner.lock().unwrap().files.contains_key(&ps))
     }
 
     fn open_write(&self, path: &Path) -> Result<WritePtr, OpenWriteError> {
         let ps = p2s(path);
+        let _op = self.pre(&OpKind::Create, &ps);
         let (seq, fail) = self.begin(OpKind::Create, &ps);
         if fail {
             return Err(OpenWriteError::IoError { io_error: Arc::new(io_injected()), filepath: path.to_path_buf() });
@@ -318,6 +331,7 @@ impl Directory for VerifDirectory {
 
     fn atomic_read(&self, path: &Path) -> Result<Vec<u8>, OpenReadError> {
         let ps = p2s(path);
+        let _op = self.pre(&OpKind::AtomicRead, &ps);
         let (seq, fail) = self.begin(OpKind::AtomicRead, &ps);
         if fail {
             return Err(OpenReadError::IoError { io_error: Arc::new(io_injected()), filepath: path.to_path_buf() });
@@ -331,6 +345,7 @@ impl Directory for VerifDirectory {
 
     fn atomic_write(&self, path: &Path, data: &[u8]) -> io::Result<()> {
         let ps = p2s(path);
+        let _op = self.pre(&OpKind::AtomicWrite, &ps);
         let (seq, fail) = self.begin(OpKind::AtomicWrite, &ps);
         {
             let mut g = self.inner.lock().unwrap();
@@ -350,6 +365,7 @@ impl Directory for VerifDirectory {
     }
 
     fn sync_directory(&self) -> io::Result<()> {
+        let _op = self.pre(&OpKind::SyncDir, "");
         let (_seq, fail) = self.begin(OpKind::SyncDir, "");
         if fail { return Err(io_injected()); }
         Ok(())
